@@ -78,7 +78,8 @@ pub fn run(t: &[&str]) -> String {
                 Some(Ordering::Greater) => "GT",
                 None => "NONE",
             };
-            format!("{} {}", r, b(eq))
+            // the comparison operators (PartialOrd's provided methods, unless overridden) and != as well
+            format!("{} {} {}{}{}{}{}", r, b(eq), b(s < o), b(s <= o), b(s > o), b(s >= o), b(s != o))
         }
         _ => panic!("bad op"),
     }
